@@ -11,6 +11,7 @@ From ClapModel Require Import Base.Bytes Base.Machine.
 From ClapModel Require Import Parse.Cmd Parse.Build Parse.Valid Parse.Matcher Parse.Errors Parse.Parser ParseProofs.Actions ParseProofs.ActionsLoop ParseProofs.ActionsTokens ParseProofs.ActionsTop ParseProofs.ActionsWide ParseProofs.ActionsWideTop ParseProofs.ActionsGraph ParseProofs.ActionsRequired ParseProofs.ActionsChain.
 From ClapModel Require ParseProofs.Chain ParseProofs.Globals ParseProofs.UnparseTree.
 From ClapModel Require Gen.ActionTables ParseProofs.TablesActions Gen.SettingsTables ParseProofs.TablesSettings.
+From ClapModel Require Gen.BuildTables ParseProofs.TablesBuild Derive.DeriveModel Complete.AotTree.
 From Coq Require Import ZArith.
 Open Scope N_scope.
 
@@ -867,3 +868,43 @@ Theorem C07_settings_propagate_table : forall p sc,
   TablesSettings.tbl_propagate p sc = Some (propagate_subcommand p sc).
 Proof. exact TablesSettings.propagate_table. Qed.
 Print Assumptions C07_settings_propagate_table.
+
+(** ---- round 5, continued: [Gen.BuildTables] (Command::_check_help_and_version, mkeymap.rs, the bool setters of Arg) ---- *)
+(** the generated `--help` / `--version` arguments, the `help` subcommand's name, about and argument are the source's *)
+Theorem C07_generated_args_table :
+  TablesBuild.tbl_flag_arg BuildTables.gen_help_arg = Some help_arg
+  /\ TablesBuild.tbl_flag_arg BuildTables.gen_version_arg = Some version_arg
+  /\ TablesBuild.tbl_help_sub_arg = Some help_subcommand_arg
+  /\ TablesActions.bytes_of_string BuildTables.gen_help_sub_name = s_help
+  /\ TablesActions.bytes_of_string BuildTables.gen_help_sub_about = s_help_about.
+Proof. exact TablesBuild.generated_args_table. Qed.
+Print Assumptions C07_generated_args_table.
+
+(** [_check_help_and_version] of the model (guards, order, what is appended) is the function the tables define *)
+Theorem C07_help_version_table : forall c, TablesBuild.tbl_bs_help_version c = Some (bs_help_version c).
+Proof. exact TablesBuild.bs_help_version_table. Qed.
+Print Assumptions C07_help_version_table.
+
+(** the keys an argument gets in the key map, in the source's order (`get` returns the first match) *)
+Theorem C07_arg_keys_table : forall a, TablesBuild.tbl_arg_keys a = Some (arg_keys a).
+Proof. exact TablesBuild.arg_keys_table. Qed.
+Print Assumptions C07_arg_keys_table.
+
+(** every `(flags f)` of a case: the harness calls an Arg setter of the ArgSettings variant the model field stands for,
+    and both readers know the same flag names *)
+Theorem C07_arg_flags_table :
+  forallb TablesBuild.flag_ok BuildTables.gen_spec_arg_flags = true
+  /\ map fst BuildTables.gen_spec_arg_flags = map fst BuildTables.gen_harness_arg_flags.
+Proof. exact TablesBuild.arg_flags_table. Qed.
+Print Assumptions C07_arg_flags_table.
+
+(** the copies of `ArgAction::takes_values` in the derive model (C15) and the completion tree model (C16) are the source's *)
+Theorem C07_other_models_takes_values :
+  (forall act row, TablesActions.row_of act = Some row ->
+     DeriveModel.action_takes_values act = ActionTables.ga_takes_values row)
+  /\ (forall a row, TablesActions.row_of (TablesBuild.aot_action a) = Some row ->
+     AotTree.action_takes_values a = ActionTables.ga_takes_values row
+     /\ TablesActions.range_named (ActionTables.ga_default_num_args row)
+        = Some (if AotTree.action_takes_values a then {| vmin := 1; vmax := 1 |} else {| vmin := 0; vmax := 0 |})).
+Proof. exact (conj TablesBuild.derive_takes_values_table TablesBuild.aot_takes_values_table). Qed.
+Print Assumptions C07_other_models_takes_values.
